@@ -106,6 +106,8 @@ def main(argv=None):
     mod = importlib.import_module("vt.props." + args.prop.lower())
     t0 = time.time()
     try:
+        if hasattr(mod, "prepare"):
+            mod.prepare(tier)  # e.g. build large reference enumerations once, before the workers are forked
         if hasattr(mod, "run"):
             acc = mod.run(tier, seed)
         else:
